@@ -593,8 +593,8 @@ MUTANTS = [
     ("affine:output-center-half-pixel", "checks.c02", "sec_sampling", {"order": 1},
      {_U: [("def prepare_affine(\n    img: da.Array,\n    center: Sequence[float],\n    output_shape: Sequence[int],\n    rot: Rotation,\n    order: int = 3,\n) -> tuple[da.Array, NDArray[np.float32]]:\n    output_center = np.array(output_shape) / 2 - 0.5",
             "def prepare_affine(\n    img: da.Array,\n    center: Sequence[float],\n    output_shape: Sequence[int],\n    rot: Rotation,\n    order: int = 3,\n) -> tuple[da.Array, NDArray[np.float32]]:\n    output_center = np.array(output_shape) / 2")]}),
-    ("affine:window-too-small", "checks.c02", "sec_sampling", {"order": 3}, {_U: [("        x1 = int(x0 + s + 2 * order + 1)", "        x1 = int(x0 + s + order + 1)")]}),
-    ("affine:window-start-shifted", "checks.c02", "sec_sampling", {"order": 1}, {_U: [("        x0 = int(c - s / 2 - order)", "        x0 = int(c - s / 2 + order)")]}),
+    ("affine:window-too-small", "checks.c02", "sec_sampling", {"order": 3}, {_U: [("        x1 = int(x0 + s + 2 * margin + 1)", "        x1 = int(x0 + s + margin + 1)")]}),
+    ("affine:window-start-shifted", "checks.c02", "sec_sampling", {"order": 1}, {_U: [("        x0 = int(c - s / 2 - margin)", "        x0 = int(c - s / 2 + margin)")]}),
     ("affine:new-center-uses-int", "checks.c02", "sec_sampling", {"order": 1}, {_U: [("        new_center.append(c - x0)\n        need_pad = need_pad or _need_pad\n\n    img0 = img[tuple(slices)]\n    if need_pad:\n        input = da.pad(img0, pads, mode=\"mean\")\n    else:\n        input = img0\n    mtx = compose_matrices(new_center, [rot], output_center=output_center)[0]\n    return input, mtx\n\n\ndef prepare_affine_cornersafe",
                                                                                                 "        new_center.append(int(c) - x0)\n        need_pad = need_pad or _need_pad\n\n    img0 = img[tuple(slices)]\n    if need_pad:\n        input = da.pad(img0, pads, mode=\"mean\")\n    else:\n        input = img0\n    mtx = compose_matrices(new_center, [rot], output_center=output_center)[0]\n    return input, mtx\n\n\ndef prepare_affine_cornersafe")]}),
     ("compose:translation-order", "checks.c02", "sec_sampling", {"order": 1}, {_U: [("matrices.append(translation_0 @ e_ @ translation_1)", "matrices.append(translation_1 @ e_ @ translation_0)")]}),
@@ -602,7 +602,7 @@ MUTANTS = [
     ("loader:pos-times-scale", "checks.c02", "sec_sampling", {"order": 1}, {_LD: [("center=self.molecules.pos[i] / scale,", "center=self.molecules.pos[i] * scale,")]}),
     ("loader:pad-mode-constant", "checks.c02", "sec_sampling", {"order": 1}, {_U: [('input = da.pad(img0, pads, mode="mean")\n    else:\n        input = img0\n    mtx = compose_matrices(new_center, [rot], output_center=output_center)[0]\n    return input, mtx\n\n\ndef prepare_affine_cornersafe', 'input = da.pad(img0, pads, mode="edge")\n    else:\n        input = img0\n    mtx = compose_matrices(new_center, [rot], output_center=output_center)[0]\n    return input, mtx\n\n\ndef prepare_affine_cornersafe')]}),
     ("cornersafe:half-len-too-small", "checks.c02", "sec_sampling", {"order": 1, "corner_safe": True, "free_axis": 0, "shape": (2, 3, 6), "quat": rotation.R30[12]},
-     {_U: [("    half_len = max_len / 2\n", "    half_len = max_len / 4\n")]}),
+     {_U: [("    half_len = max_len / 2\n", "    half_len = max_len / 16\n")]}),
     ("plumbing:rotator-index", "checks.c02", "sec_plumbing2", {}, {_LD: [("rot=self.molecules.rotator[i],", "rot=self.molecules.rotator[0],")]}),
 ]
 
